@@ -46,13 +46,13 @@ def WellFormed (v : Val) : Prop := Typing.checkVal false v (typeOf v) = true ∧
 body (its MAP bodies keep the element type) -/
 def StrictWF (v : Val) : Prop := Typing.checkVal true v (typeOf v) = true ∧ Typing.litOk v = true
 
-/-- **shape digests**: for each of the 100 instruction forms, the helpers (`execute_dip`, `execute_shift`, `dispatch_types`
+/-- **shape digests**: for each of the 101 instruction forms, the helpers (`execute_dip`, `execute_shift`, `dispatch_types`
 …) and the `MichelsonStack` / `PairType` / `from_value` methods they call, the normalised statement list in the source
 is the one the mirror `Impl` was written from (translator/c01.py, `SHAPES`) -/
 theorem source_bodies_recognised : Generated.C01.bodyRecognised.all (·.2) = true := by decide
 
-/-- the digest list covers all 100 instruction forms -/
-theorem source_bodies_cover_all_forms : Generated.C01.modelledForms = 100 ∧ 100 ≤ Generated.C01.bodyRecognised.length := by
+/-- the digest list covers all 101 instruction forms -/
+theorem source_bodies_cover_all_forms : Generated.C01.modelledForms = 101 ∧ 101 ≤ Generated.C01.bodyRecognised.length := by
   decide +kernel
 
 /-- the `dispatch_types` tables read from arithmetic.py are the reference tables -/
@@ -223,7 +223,7 @@ end
 the PUSHed lambda literals, in LAMBDA bodies — leaves an element of the type it was given.  For such programs, run on
 strictly well-typed values (`StrictWF`: the lambdas on the input stack have strictly typed bodies too), the guard of
 `welltyped_run_eq_reference` never fires, so C01's statement holds with static hypotheses only.  The invariant "every
-lambda on the stack has a strictly typed body" is carried through all 100 instruction forms by the same preservation /
+lambda on the stack has a strictly typed body" is carried through all 101 instruction forms by the same preservation /
 progress development as the non-strict one, instantiated at the mode `Mode.strictGuarded`. -/
 
 /-- strict typing refines typing: same result -/
@@ -474,6 +474,20 @@ example (rt : List Nat → Option Int) : Impl.run { env0 with readTimestamp := r
 example : Typing.typeInstr false (.UNPACK (.set (.pair .int .int))) [.bytes] = none := by rfl
 example : Typing.typeInstr false (.UNPACK .address) [.bytes] = none := by rfl
 example : Typing.typeInstr false (.UNPACK (.map .string (.list (.option .mutez)))) [.bytes] = some (.ok [.option (.map .string (.list (.option .mutez)))]) := by rfl
+
+-- extension 3, phase 3: CHECK_SIGNATURE pushes what the verification function of the environment answers — for EVERY such function
+example (h : Hashes) (k s m : List Nat) :
+    Impl.run { env0 with hashes := h } 20 (.seq [.PUSH .bytes (.bytes m), .PUSH .signature (.atom .signature s), .PUSH .key (.atom .key k),
+      .CHECK_SIGNATURE, .IF (.seq [.UNIT]) (.seq [.UNIT, .FAILWITH])]) []
+      = if h.checkSig k s m then .ok [.unit] else .failed .unit :=
+  (run_eq_guarded _ 20 _ [] (by cases hc : h.checkSig k s m <;> simp [Spec.eval, Spec.evalSeq, Spec.step, Spec.stepMore, Spec.stepExt,
+      Spec.checkSignatureV, Res.bind, hc])
+    (by cases hc : h.checkSig k s m <;> simp [Spec.eval, Spec.evalSeq, Spec.step, Spec.stepMore, Spec.stepExt,
+      Spec.checkSignatureV, Res.bind, hc])).trans
+    (by cases hc : h.checkSig k s m <;> simp [Spec.eval, Spec.evalSeq, Spec.step, Spec.stepMore, Spec.stepExt,
+      Spec.checkSignatureV, Res.bind, hc])
+example : Typing.typeInstr false (.seq [.CHECK_SIGNATURE, .NOT]) [.key, .signature, .bytes] = some (.ok [.bool]) := by rfl
+example : Typing.typeInstr false .CHECK_SIGNATURE [.signature, .key, .bytes] = none := by rfl
 
 -- non-vacuity of `welltyped_run_eq_reference` / `progress`: a well-typed program with a loop, a lambda call and a sorted
 -- set literal, run on a well-typed input stack; the hypotheses hold and the run is inside the guard
